@@ -801,3 +801,131 @@ func discharge(results []*FuncResult, opt dischargeOpts) {
 }
 
 var _ = token.NoPos
+
+// verifyLemma discharges a lemma of the contract language: a universally
+// quantified implication over spec functions, optionally by induction on a
+// natural-number parameter (the induction hypothesis is the lemma itself at
+// the predecessor, for all values of the other parameters).
+func (e *Engine) verifyLemma(name string) (res *FuncResult) {
+	start := time.Now()
+	res = &FuncResult{Key: "lemma:" + name}
+	lem := e.contracts.Lemmas[name]
+	if lem == nil {
+		res.Unsupported = "lemma not found"
+		return res
+	}
+	fx := e.newFnCtx(nil)
+	fx.lemmaName = "lemma:" + name
+	res.Ctx = fx
+	defer func() {
+		res.Seconds = time.Since(start).Seconds()
+		if r := recover(); r != nil {
+			if u, ok := r.(unsupported); ok {
+				res.Unsupported = u.msg
+			} else {
+				res.Unsupported = fmt.Sprintf("internal error: %v\n%s", r, debug.Stack())
+			}
+			res.Obligations = fx.obls
+		}
+	}()
+	st := &State{guard: "true", cells: map[*Cell]Val{}, heaps: map[string]T{}, alloc: "0"}
+	env := &Env{fx: fx, vars: map[string]CV{}, st: st, old: st, pkg: e.pkgOf(lem.Pkg), bound: map[string]bool{}}
+	mk := func(env *Env, bound bool) (names []string, binders []string) {
+		for _, p := range lem.Params {
+			sty := env.specTypeOf(p.Type)
+			var ts []T
+			for c, so := range sty.sorts {
+				var n T
+				if bound {
+					n = fmt.Sprintf("ih_%s_%d", p.Name, c)
+					binders = append(binders, fmt.Sprintf("(%s %s)", n, so))
+				} else {
+					n = fx.decls.Fresh("lem_"+p.Name, so)
+				}
+				ts = append(ts, n)
+			}
+			cv := unflattenCV(ts, sty, arrLenOfType(p.Type))
+			env.vars[p.Name] = cv
+			if sty.k == cvStr {
+				if bound {
+					// range facts become part of the hypothesis' antecedent
+				} else {
+					fx.assumes = append(fx.assumes, le("0", cv.off), le("0", cv.n))
+				}
+			}
+			if p.Type == "byte" && !bound {
+				fx.assumes = append(fx.assumes, le("0", cv.t), le(cv.t, "255"))
+			}
+			if p.Type == "nat" && !bound {
+				fx.assumes = append(fx.assumes, le("0", cv.t))
+			}
+		}
+		return
+	}
+	mk(env, false)
+	// used lemmas (already proved separately) as quantified assumptions
+	for _, u := range lem.Uses {
+		fx.assumes = append(fx.assumes, e.lemmaAsAxiom(fx, u, ""))
+	}
+	if lem.Induct != "" {
+		fx.assumes = append(fx.assumes, e.lemmaAsAxiom(fx, name, lem.Induct+"|"+env.vars[lem.Induct].asInt()))
+	}
+	for _, r := range lem.Requires {
+		fx.assumes = append(fx.assumes, env.eval(r.E).asBool())
+	}
+	fx.cover = append(fx.cover, &Obligation{Name: "lemma:" + name + "/vacuity/requires_satisfiable", Kind: "cover", Guard: "true", Cond: "false", NAssume: len(fx.assumes), Func: fx.lemmaName})
+	for i, c := range lem.Ensures {
+		t := env.eval(c.E).asBool()
+		fx.oblige("lemma", fmt.Sprintf("lemma:%s/%s", name, clauseName(c, i)), st, t, token.NoPos, c.Src)
+	}
+	res.Obligations = fx.obls
+	res.Cover = fx.cover
+	return res
+}
+
+// lemmaAsAxiom renders a lemma as a universally quantified formula. With
+// induct = "var|term" the formula is restricted to instances whose var is a
+// natural number smaller than term (the induction hypothesis).
+func (e *Engine) lemmaAsAxiom(fx *FnCtx, name string, induct string) T {
+	lem := e.contracts.Lemmas[name]
+	if lem == nil {
+		unsupp("unknown lemma %s", name)
+	}
+	st := &State{guard: "true", cells: map[*Cell]Val{}, heaps: map[string]T{}, alloc: "0"}
+	env := &Env{fx: fx, vars: map[string]CV{}, st: st, old: st, pkg: e.pkgOf(lem.Pkg), bound: map[string]bool{"ax": true}}
+	var binders []string
+	var pre []T
+	for _, p := range lem.Params {
+		sty := env.specTypeOf(p.Type)
+		var ts []T
+		for c, so := range sty.sorts {
+			n := fmt.Sprintf("ax_%s_%s_%d", sanitize(name), p.Name, c)
+			binders = append(binders, fmt.Sprintf("(%s %s)", n, so))
+			ts = append(ts, n)
+		}
+		cv := unflattenCV(ts, sty, arrLenOfType(p.Type))
+		env.vars[p.Name] = cv
+		if sty.k == cvStr {
+			pre = append(pre, le("0", cv.off), le("0", cv.n))
+		}
+		if p.Type == "byte" {
+			pre = append(pre, le("0", cv.t), le(cv.t, "255"))
+		}
+		if p.Type == "nat" {
+			pre = append(pre, le("0", cv.t))
+		}
+	}
+	if induct != "" {
+		parts := strings.SplitN(induct, "|", 2)
+		v := env.vars[parts[0]].asInt()
+		pre = append(pre, le("0", v), lt(v, parts[1]))
+	}
+	for _, r := range lem.Requires {
+		pre = append(pre, env.eval(r.E).asBool())
+	}
+	var posts []T
+	for _, c := range lem.Ensures {
+		posts = append(posts, env.eval(c.E).asBool())
+	}
+	return fmt.Sprintf("(forall (%s) %s)", strings.Join(binders, " "), imp(and(pre...), and(posts...)))
+}
